@@ -1,7 +1,7 @@
 (* prelude: zn nat *)
 (* C05 driver: one line = one abstract repository state as dumped by harness/src/bin/c05.rs
    (dump_state).  Contents are named by the number given to their SHA-256, so hash = identity.
-     meta_ok snap_names_ok npacks { id size hash trailer nsegs { off len 1 n {entry} | off len 0 raw (0 | 1 unz) } }
+     meta_ok index_ok snap_names_ok npacks { id size hash trailer nsegs { off len 1 n {entry} | off len 0 raw (0 | 1 unz) } }
      nindex { npacks {ipack} ndel {ipack} }   ipack = id (0 | 1 size) time nblobs {entry}
      nroots {id}   ncontents { tok len (0 | 1 nnodes {node}) }
      entry = tree? id off len (0 | 1 ulen)    node = 0 | 1 0 | 1 1 k {id} | 2 0 | 2 1 id *)
@@ -52,6 +52,7 @@ let conj l = List.fold_left (fun a b -> match a, b with
 let run line =
   let t = toks line in
   let meta = ni t = 1 in
+  let index_ok = ni t = 1 in
   let snap_ok = ni t = 1 in
   let packs = rd_list t rd_spack in
   let index = rd_list t rd_ifile in
@@ -64,17 +65,21 @@ let run line =
   let hash b = n_of_int b in
   let blen b = try Hashtbl.find lens b with Not_found -> N0 in
   let parse b = try Hashtbl.find trees b with Not_found -> None in
-  let st = { st_meta_ok = meta; st_snap_names_ok = snap_ok; st_packs = packs; st_index = index; st_roots = roots } in
+  let st = { st_meta_ok = meta; st_index_ok = index_ok; st_snap_names_ok = snap_ok; st_packs = packs; st_index = index; st_roots = roots } in
   let fuel = nat_of_int 64 in
   let chk = match check hash blen parse st fuel with
     | None -> "fuel"
     | Some [] -> "clean"
     | Some es -> "errors:" ^ String.concat "+" (List.sort_uniq compare (List.map err_name es)) in
-  let sel = lookup st in
+  (* restore's own index; when it cannot be built (unreadable index file) nothing restores *)
+  let sel = rlookup st in
+  let opens = restore_opens st in
+  let gate = function Some b -> Some (b && opens) | None -> None in
   let rd = conj (List.map (fun r -> readable blen parse st sel fuel r) roots) in
   let co = conj (List.map (fun r -> correct hash blen parse st sel false fuel r) roots) in
   let cs = conj (List.map (fun r -> correct hash blen parse st sel true fuel r) roots) in
-  Printf.sprintf "check=%s nodup=%d readable=%s correct=%s strict=%s roots=%d" chk
-    (if nodup_keys st then 1 else 0) (tri rd) (tri co) (tri cs) (List.length roots)
+  Printf.sprintf "check=%s nodup=%d readable=%s correct=%s strict=%s roots=%d opens=%d" chk
+    (if nodup_keys st then 1 else 0) (tri (gate rd)) (tri (gate co)) (tri (gate cs)) (List.length roots)
+    (if opens then 1 else 0)
 
 let () = main_loop run
